@@ -8,7 +8,7 @@
  "specs": {"util/insecure_memzero.c": "contracts/util__insecure_memzero.c.drbg.spec"},
  "expect_loops": ["insecure_memzero_func"],
  "defines": ["VERIF_HALLOC"],
- "models": ["models/drbg_hmac.c"],
+ "models": ["models/drbg_hmac.c", "models/drbg_os.c"],
  "timeout": 300,
  "assumptions": ["HMAC-SHA256 is an abstract leaf (models/drbg_hmac.c): its conformance is C01's; provided_data <= 64 bytes (the code uses 0, 32, 48)",
                  "insecure_memzero_func is the real one, its loop closed by a loop contract"]
